@@ -23,13 +23,17 @@ class Prov:
     """Backward def-use tracing inside one body (flow-insensitive over locals: a local with several
     definitions yields a phi of all of them)."""
 
-    def __init__(self, body, transparent=True):
+    def __init__(self, body, transparent=True, only_blocks=None):
+        """only_blocks: restrict the definitions considered to these blocks (the blocks feasible under a cell):
+        a local assigned on several match arms then denotes the value of the arm under consideration."""
         self.body = body
         self.transparent = transparent
         self.defs = {}       # local -> list of ("assign", rv) | ("call", term)
         self.pdefs = {}      # (local, proj-prefix) -> list of defs for partial writes
         self.mut_borrowed = set()
         for b in body.live_blocks():
+            if only_blocks is not None and b.idx not in only_blocks:
+                continue
             for st in b.stmts:
                 if st["k"] == "assign":
                     pk = place_key(st["place"])
@@ -201,7 +205,7 @@ class Prov:
                 fields = tuple((fn, self.operand(o, depth)) for fn, o in zip(rv["fields"], rv["ops"]))
                 return ("agg", rv["path"], rv["vname"], fields)
             fields = tuple((str(i), self.operand(o, depth)) for i, o in enumerate(rv["ops"]))
-            return ("agg", rv["ak"], "", fields)
+            return ("agg", rv["ak"], rv.get("path", "") if rv["ak"] == "closure" else "", fields)
         if k == "repeat":
             return ("repeat", self.operand(rv["op"], depth), rv["n"])
         return ("unk-rv", k)
@@ -540,3 +544,45 @@ def eq_const_edges(body, prov, pred, value):
                         edges.append((blk.idx, tg))
                         lines.append(t["line"])
     return edges, lines
+
+
+def scrutinee_type(body, sw):
+    """Type record of the enum a discriminant switch tests (None when the switch is not on a discriminant)."""
+    op = sw.term["discr"]
+    pl = op.get("move") or op.get("copy")
+    if pl is None or pl["p"]:
+        return None
+    l = pl["l"]
+    # the defining `discriminant(place)` statement: in the block itself, else anywhere (SSA temp)
+    cands = []
+    for blk in [sw] + [b for b in body.live_blocks() if b is not sw]:
+        for st in reversed(blk.stmts):
+            if st["k"] == "assign" and st["place"]["l"] == l and not st["place"]["p"]:
+                cands.append(st)
+        if cands:
+            break
+    for st in cands:
+        if st["rv"]["k"] == "discr":
+            t = body.facts.types[st["rv"]["place"]["ty"]]
+            while t.get("k") == "ref":
+                t = body.facts.types[t["to"]]
+            return t
+    return None
+
+
+def variant_edges(body, sw):
+    """{variant name: target block} of a discriminant switch, type aware: a variant without a case of its own is served by
+    `otherwise` (as in `if let Some(x) = ..`, where None has no case).  None when sw is not an enum switch."""
+    t = scrutinee_type(body, sw)
+    if t is None or not t.get("variants"):
+        return None
+    out = {}
+    listed = {v: tg for v, tg in sw.term["targets"]}
+    ow = sw.term["otherwise"]
+    ow_dead = body.blocks[ow].term and body.blocks[ow].term["k"] == "unreachable" and not body.blocks[ow].stmts
+    for v in t["variants"]:
+        if v["discr"] in listed:
+            out[v["name"]] = listed[v["discr"]]
+        elif not ow_dead:
+            out[v["name"]] = ow
+    return out
